@@ -80,6 +80,23 @@ Proof.
   rewrite blake2b_rfc_length by lia. pose proof enc_maxlen_ge64. lia.
 Qed.
 
+(* the digest lengths used by the compiler (default of stringer.hash and the literal lengths at its
+   call sites in lualib/nelua, regenerated into Gen.v) are all valid digest lengths *)
+Lemma callsite_lens_valid : forallb (fun l => (1 <=? l) && (l <=? 64)) (STRINGER_DEFAULT_LEN :: STRINGER_CALLSITE_LENS) = true.
+Proof. vm_compute. reflexivity. Qed.
+
+Lemma stringer_hash_callsites len s : In len (STRINGER_DEFAULT_LEN :: STRINGER_CALLSITE_LENS) -> Forall is_byte s ->
+  stringer_hash s len [] = LOk (base58_spec_encode (blake2b_rfc len [] s)).
+Proof.
+  intros Hin Hs. pose proof callsite_lens_valid as H. rewrite forallb_forall in H. specialize (H len Hin).
+  apply andb_true_iff in H. destruct H as [H1 H2]. apply Z.leb_le in H1. apply Z.leb_le in H2.
+  apply stringer_hash_ok; [lia|cbn [length]; lia|constructor|exact Hs].
+Qed.
+
+Lemma stringer_hash_default_ok s : Forall is_byte s ->
+  stringer_hash_default s = LOk (base58_spec_encode (blake2b_rfc STRINGER_DEFAULT_LEN [] s)).
+Proof. intros Hs. apply stringer_hash_callsites; [left; reflexivity|exact Hs]. Qed.
+
 (* satisfiable hypotheses / non-vacuity *)
 Example decode_encode_instance :
   lbase58_encode [0; 0; 1; 2; 3; 255] = LOk [49; 49; 50; 86; 102; 89; 114] /\
